@@ -440,6 +440,23 @@ def c10_case(ctx: Ctx, case: dict):
         return
     ctx.case(base, len(variants) >= 2 and base.count("\n") >= 5, sample={"text": base, "variant": variants[0]})
     r0 = ctx.lean().call({"op": "load", "text": base})
+
+    def part_codes(o):
+        """generated code of every component sub-model and of its complement (equal models split equally)"""
+        out = {}
+        comps = [c for c in o.components if c.name]
+        if len(comps) < 2:
+            return out
+        for c in sorted(comps, key=lambda c: c.name)[:4]:
+            for tag, mk in (("sub", lambda c=c: c.to_ode()), ("rest", lambda c=c: o - c)):
+                try:
+                    po = mk()
+                    out[(c.name, tag)] = (common.py_code(po, scheme=[Scheme.explicit_euler]), dict(po.missing_variables))
+                except Exception as ex:
+                    out[(c.name, tag)] = (f"raises {type(ex).__name__}", None)
+        return out
+
+    parts0 = part_codes(ode0)
     for v in variants:
         try:
             ode = common.load(v)
@@ -458,6 +475,16 @@ def c10_case(ctx: Ctx, case: dict):
                         + (f" (state slots {lay0} vs {lay})" if lay != lay0 else ""), case={"text": base, "variants": [v]})
         elif common.c_code(ode) != c0:
             ctx.violate("C10/c-code-differs", "a permutation of the text changes the generated C code", case={"text": base, "variants": [v]})
+        elif parts0:
+            parts = part_codes(ode)
+            ctx.count("submodel_codes_compared", len(parts))
+            for k in parts0:
+                if parts.get(k) != parts0[k]:
+                    what = "missing-variable slots" if parts.get(k, (None, None))[1] != parts0[k][1] else "code"
+                    ctx.violate(f"C10/submodel-{what.split()[0]}-differs/{k[1]}",
+                                f"a permutation of the text changes the generated {what} of the {k[1]} sub-model of component {k[0]!r}",
+                                case={"text": base, "variants": [v]})
+                    break
         # the model: name-keyed content is the same
         r = ctx.lean().call({"op": "load", "text": v})
         if r0.get("ok") and r.get("ok"):
@@ -474,6 +501,8 @@ def c10_run(ctx: Ctx):
     n = ctx.n(30, 1200)
     for k in range(n):
         cfg = gen.ModelCfg(max_inters=7, max_states=4, max_params=4, depth=2, p_shared=0.3)
+        if k % 3 == 1:      # several components that read each other's quantities (sub-model layouts)
+            cfg = gen.ModelCfg(max_inters=8, max_states=5, min_states=3, max_params=4, depth=1, p_shared=0.1, max_comps=4, min_comps=3)
         cfg.expr = gen.ExprCfg(p_cond=0.05, p_ccond=0.01, p_mod=0.01, p_floor=0.01)
         m = gen.gen_model(ctx.rng, cfg)
         base = m.text(None, shuffle_lines=False)
